@@ -109,6 +109,7 @@ EnabledL(cfg, s, op) ==
 ObsL(cfg, s) ==
   [gauge |-> s.gauge, busy |-> StratBusy(cfg, s), limit |-> StratLimit(cfg, s), est |-> s.est,
    nsamp |-> s.nsamp,
+   glimit |-> StratLimit(cfg, s),   \* C20: the "limit" gauge registered by the strategy reports the enforced limit
    bl |-> IF Partitioned(cfg) THEN [o \in Range(s.ps.reg) |-> s.ps.ol[o]] ELSE <<>>]
 
 (* ---- consequences checked in every reachable state ------------------------------------- *)
